@@ -113,6 +113,21 @@ func (s *vfSession) peerChaos(n int, peerRole string, nominate bool, values bool
 				p.respond(d, sock, d.Src, p.pwd)
 				s.r.set("peer_actions", "response")
 			}
+		case k == 7 && len(held) > 0 && len(aSocks) > 1 && s.rng.IntN(2) == 0:
+			// answer a check on ANOTHER local socket of the agent than the one that sent it (correct transaction id and signature)
+			d := held[0]
+			held = held[1:]
+			var other netip.AddrPort
+			for _, a := range aSocks {
+				if a != d.SrcPriv {
+					other = a
+				}
+			}
+			if sock := p.sockFor(d.Dst); sock != nil && other.IsValid() {
+				s.step("peer-response-misdirected", "P", d.ID, fmt.Sprintf("sent from %s answered to %s", d.SrcPriv, other))
+				p.respond(d, sock, other, p.pwd)
+				s.r.set("peer_actions", "response-to-other-local-socket")
+			}
 		case k == 7 && len(held) > 0: // forget a request (never answered)
 			held = held[1:]
 			s.r.set("peer_actions", "withhold")
